@@ -339,9 +339,13 @@ enum { K_AGGR = 0, K_EXT, K_ACONF, K_ECONF, K_APUSH, K_EPUSH, K_N };
 #define KPUSH(k) ((k) == K_APUSH || (k) == K_EPUSH)
 static const char *KNAME[K_N] = {"aggr", "ext", "aconf", "econf", "aggr+conf", "ext+conf"};
 enum { M_NONE = 0, M_FLIP, M_TRUNC, M_KEY, M_ALG, M_ALG_UNPIN, M_ALG_UNPIN_BADKEY, M_VERSION, M_NO_HEADER, M_NO_MAC, M_MAC_FIRST, M_HEADER_LAST, M_BAD_MAC,
-       M_EP0_BAD, M_CROSS_KEY, M_SPLICE, M_N };
+       M_EP0_BAD, M_CROSS_KEY, M_SPLICE, M_ERRPLUS_BADMAC, M_ERRFIRST_BADMAC, M_ERRPLUS_BARE, M_ERRPLUS_NOMAC, M_ERRPLUS_AUTH, M_N };
+/* M_ERR*: a PDU (v2) that carries an error payload NEXT TO the ordinary payload: a MAC that does not verify, no header and no MAC
+ * at all, no MAC, and (M_ERRPLUS_AUTH) a correct MAC */
 static const char *MNAME[M_N] = {"authentic", "flip", "trunc", "other-key", "other-alg", "other-alg-unpinned", "unpinned-bad-key", "other-version", "no-header", "no-mac",
-                                 "mac-not-last", "header-last", "bad-mac", "ha-one-endpoint-bad", "ha-cross-key", "splice"};
+                                 "mac-not-last", "header-last", "bad-mac", "ha-one-endpoint-bad", "ha-cross-key", "splice",
+                                 "error-payload-after-response-bad-mac", "error-payload-before-response-bad-mac", "error-payload-and-response-bare", "error-payload-and-response-no-mac", "error-payload-and-response-authentic-mac"};
+static int B_err_extra;   /* 1: an error payload is appended to the payloads of the response built next, 2: put in front of them */
 #define NKEYVAR 5
 #define B_TA 1700000000ULL
 #define B_T0 1600000000ULL
@@ -465,6 +469,14 @@ static void build_response(vbuf *out, const rp_req *r, int ep, int version, int 
 	}
 	if (B.kind == K_APUSH) rp_aggr_conf_payload(&payload, 17, 1, 1000, 12, ACONF_URI);
 	if (B.kind == K_EPUSH) rp_ext_conf_payload(&payload, 12, ECONF_URI, 1136073600LL + 1000, (int64_t)B_PHEAD);
+	if (B_err_extra) {
+		vbuf ep2, all;
+		vb_init(&ep2); vb_init(&all);
+		rp_error_payload(&ep2, version, e.kind, 0x0101, "c06");
+		if (B_err_extra == 2) { vb_putvb(&all, &ep2); vb_putvb(&all, &payload); } else { vb_putvb(&all, &payload); vb_putvb(&all, &ep2); }
+		vb_reset(&payload); vb_putvb(&payload, &all);
+		vb_free(&ep2); vb_free(&all);
+	}
 	rp_wrap_response(out, &e, payload.p, payload.n);
 	vb_free(&body); vb_free(&payload);
 }
@@ -538,6 +550,11 @@ static void b_handler(const unsigned char *req, size_t n, vbuf *resp, void *user
 		case M_BAD_MAC: build_response(sent, &r, ep, B.version, B.cfg_alg, key, kl, RP_F_BAD_MAC, 0); break;
 		case M_EP0_BAD: build_response(sent, &r, ep, B.version, B.cfg_alg, key, kl, ep == 0 ? RP_F_BAD_MAC : 0, 0); break;
 		case M_CROSS_KEY: build_response(sent, &r, ep, B.version, B.cfg_alg, B.key[other], strlen(B.key[other]), 0, 0); break;
+		case M_ERRPLUS_BADMAC: B_err_extra = 1; build_response(sent, &r, ep, B.version, B.cfg_alg, key, kl, RP_F_BAD_MAC, 0); B_err_extra = 0; break;
+		case M_ERRFIRST_BADMAC: B_err_extra = 2; build_response(sent, &r, ep, B.version, B.cfg_alg, key, kl, RP_F_BAD_MAC, 0); B_err_extra = 0; break;
+		case M_ERRPLUS_BARE: B_err_extra = 1; build_response(sent, &r, ep, B.version, B.cfg_alg, key, kl, RP_F_NO_HEADER | RP_F_NO_MAC, 0); B_err_extra = 0; break;
+		case M_ERRPLUS_NOMAC: B_err_extra = 1; build_response(sent, &r, ep, B.version, B.cfg_alg, key, kl, RP_F_NO_MAC, 0); B_err_extra = 0; break;
+		case M_ERRPLUS_AUTH: B_err_extra = 1; build_response(sent, &r, ep, B.version, B.cfg_alg, key, kl, 0, 0); B_err_extra = 0; break;
 		case M_SPLICE: {
 			/* the first arg bytes of the authentic response followed by the rest of ANOTHER authentic response under the same key
 			 * (same payload, one letter of the header's login id differs; same length) */
@@ -938,6 +955,7 @@ static void part_b(void) {
 						long a, na = 1;
 						if ((fam == M_EP0_BAD || fam == M_CROSS_KEY) && CL_NEP(cl) != 2) continue;
 						if (fam == M_SPLICE) continue;
+						if (fam >= M_ERRPLUS_BADMAC && ver != 2) continue;
 						if (fam == M_KEY) na = NKEYVAR;
 						if (fam == M_ALG || fam == M_ALG_UNPIN || fam == M_ALG_UNPIN_BADKEY) na = NMACALG;
 						for (a = 0; a < na; a++) {
